@@ -29,6 +29,10 @@ const (
 	// has successfully verified the token sent via e-mail in the two factor
 	// e-mail authentication process.
 	Session2FAAuthed = "twofactor_authed"
+	// Session2FAAuthPID is the user the two factor e-mail authentication
+	// token was sent to. The verification only counts for that user, not for
+	// whoever logs in to the same session afterwards.
+	Session2FAAuthPID = "twofactor_auth_pid"
 	// SessionOAuth2State is the xsrf protection key for oauth.
 	SessionOAuth2State = "oauth2_state"
 	// SessionOAuth2Params is the additional settings for oauth
